@@ -3,7 +3,7 @@
 use crate::net::*;
 use crate::prng::run_seed;
 use crate::report::{self, ddmin, Evidence, Violation};
-use crate::sim::{simulate, Profile};
+use crate::sim::{simulate, simulate_band, Profile};
 use crate::util::{par_fold, Counters, Ctx, HashSet64};
 use serde_json::json;
 
@@ -259,12 +259,24 @@ pub fn run(ctx: &Ctx, profile: Profile) -> i32 {
     let seed = ctx.seed;
     let stream = stream_of(profile);
     let max_k = max_k_for(ctx, profile);
+    let n_xxl: u64 = match profile {
+        Profile::C01 | Profile::C08 => ctx.runs(16, 600),
+        _ => 0,
+    };
     let (acc, fail) = par_fold(
         n,
         ctx.workers,
-        64,
+        if n_xxl > 0 { 8 } else { 64 },
         |run, acc: &mut Acc| {
-            let out = simulate(run_seed(seed, stream, run), profile, oracles, false, max_k);
+            // the first few runs of C01 and C08 are very large single blocks (3000..9000 symbols):
+            // few, because each costs about a second, but they reach the multi-word dense tail of the
+            // sparse back-end that no block below ~4000 symbols reaches
+            let out = if run < n_xxl {
+                acc.probes.inc("shape_very_large_block");
+                simulate_band(run_seed(seed, stream + 1000, run), profile, oracles, false, 3000, 9000)
+            } else {
+                simulate(run_seed(seed, stream, run), profile, oracles, false, max_k)
+            };
             acc.runs += 1;
             acc.faults.merge(&out.faults);
             acc.ticks += out.ticks;
@@ -363,6 +375,9 @@ pub fn run(ctx: &Ctx, profile: Profile) -> i32 {
     }
     for k in ["shape_f_not_multiple_of_t", "shape_z_gt_1_kl_ne_ks", "shape_n_gt_1", "shape_n_gt_1_tl_ne_ts", "shape_al_gt_1", "shape_padding_symbols_present", "shape_t_ge_64", "shape_single_byte_object", "shape_forced_kernel"] {
         probes.add(k, acc.probes.get(k));
+    }
+    if n_xxl > 0 {
+        probes.add("shape_very_large_block", acc.probes.get("shape_very_large_block"));
     }
     if violations.is_empty() {
         for z in probes.zeros() {
